@@ -307,6 +307,25 @@ fn handle(line: &str) -> String {
             let hasher = ZobristHasher::with(&mut ChaCha8Rng::seed_from_u64(seed));
             format!("{}", hasher.hash(&state))
         }
+        "objafter" => {
+            // objafter <seed> <fen...>: for every legal move, in generation order, what the SUCCESSOR OBJECT built by make-move
+            // (never re-read from FEN) hashes to under the seeded hasher and evaluates to from White's view at ply 1
+            let seed: u64 = parts[1].parse().unwrap();
+            let Some(state) = parse_fen(&parts[2..].join(" ")) else {
+                return "badfen".into();
+            };
+            let hasher = ZobristHasher::with(&mut ChaCha8Rng::seed_from_u64(seed));
+            let set = MoveGenerator::compute_legal_moves(&state);
+            let v: Vec<String> = set
+                .moves()
+                .iter()
+                .map(|r| {
+                    let e = Evaluator::default().evaluate(&r.1, Color::White, 1);
+                    format!("{}:{}", hasher.hash(&r.1), i32::from(e))
+                })
+                .collect();
+            format!("{} {}", v.len(), v.join(" "))
+        }
         "eval" => {
             // eval <w|b> <ply> <fen...>
             let Some(state) = parse_fen(&parts[3..].join(" ")) else {
